@@ -267,6 +267,17 @@ def descents(ctx: Ctx, f: Func) -> List[ast.Call]:
     return sorted(out, key=lambda c: c.lineno)
 
 
+def _dict_grouping(f: Func) -> Optional[ast.AST]:
+    """`groups.setdefault(key, [])` / `defaultdict(list)` / `if key not in groups: groups[key] = []` followed by an append:
+    grouping by a mapping does not depend on the order of the input (unlike groupby)"""
+    for n in f.own_nodes():
+        if isinstance(n, ast.Call) and isinstance(n.func, ast.Attribute) and n.func.attr == "setdefault" and len(n.args) == 2 and isinstance(n.args[1], ast.List) and not n.args[1].elts:
+            return n
+        if isinstance(n, ast.Call) and unparse(n.func).endswith("defaultdict") and n.args and unparse(n.args[0]) == "list":
+            return n
+    return None
+
+
 def _neighbour_scan(f: Func) -> Optional[ast.AST]:
     """`for (p, q) in zip(xs, xs[1:])` (or xs[i] / xs[i + 1]) with a `startswith` test, where xs is `sorted(..)` of whole
     path strings (no key, or a key that does not split the path): the loop / comprehension node, else None."""
@@ -332,7 +343,11 @@ def run(ctx: Ctx) -> None:
         1 for n in detector.own_nodes()
         if isinstance(n, ast.Call) and (prog.dotted(detector, n.func) or "").endswith("itertools.groupby")
     )
-    if in_detector == 0:
+    if in_detector == 0 and _dict_grouping(detector) is not None:
+        n_gb += 1
+        g_ = _dict_grouping(detector)
+        rep.ok("C11.R1", detector.qname, f"the overlap detector groups by a dictionary (`{unparse(g_, 50)}`): every path is filed under its key whatever the input order", detector.loc(g_))
+    elif in_detector == 0:
         w = _neighbour_scan(detector)
         if w is not None:
             # a known-wrong idiom, decided as such: one pass over the string-sorted paths comparing neighbours
